@@ -194,6 +194,10 @@ def gen_cases(tier, seed):
             cc['feature'] = f
             cases.append(cc)
     cfg = TIERS[tier]
+    small = D.small_exhaustive()
+    step_ = 1 if tier == 'thorough' else 6
+    for k, d in enumerate(small[::step_]):
+        cases.append({'id': f'small{k}', 'stream': 'small', 'feature': (k % 5 == 0), 'def': d})
     for k in range(cfg['rand']):
         d = D.wf_random(rng)
         cases.append({'id': f'rand{k}', 'stream': 'rand', 'feature': rng.random() < 0.3, 'def': d})
@@ -520,7 +524,7 @@ def run_check(pid, tier):
         'traces_validated_against_impl': (t3r or {}).get('scenarios', 0),
         'evaluations': (tie or {}).get('cases', 0),
         'distinct_nontrivial': (tie or {}).get('distinct_expanded', 0),
-        'rule': 'definitions: every state_machine! block of /repo (x2 feature settings) + seeded random well-formed trees '
+        'rule': 'definitions: every state_machine! block of /repo (x2 feature settings) + bounded-exhaustive small definitions (all of them in thorough, every 6th in quick) + seeded random well-formed trees '
                 '+ one rule-violating edit per rule and position; non-trivial = distinct DSL texts that expand to tokens',
     }
     assumptions = list(TRUSTED_BASE)
